@@ -23,7 +23,8 @@ Comps == { <<"AndersonCD", "Quadratic", "L1">>, <<"AndersonCD", "Quadratic", "We
            <<"GroupProxNewton", "LogisticGroup", "WeightedGroupL2">>,
            <<"MultiTaskBCD", "QuadraticMultiTask", "L2_1">>,
            <<"GramCD", "None", "L1">>, <<"GramCD", "None", "MCPenalty">>,
-           <<"FISTA", "Quadratic", "L1">>, <<"LBFGS", "Logistic", "L2">> }
+           <<"FISTA", "Quadratic", "L1">>, <<"LBFGS", "Logistic", "L2">>,
+           <<"PDCD_WS", "Pinball", "L1">>, <<"PDCD_WS", "SqrtQuadratic", "L1">> }
 Sparse(c) == c[1] \in {"AndersonCD", "ProxNewton", "GroupBCD", "MultiTaskBCD", "GramCD", "FISTA", "LBFGS"}
              /\ c[2] # "LogisticGroup"
 Intercept(c) == c[1] \in {"AndersonCD", "ProxNewton", "GroupBCD", "GroupProxNewton", "MultiTaskBCD"}
@@ -33,7 +34,8 @@ vars == <<stage, sc>>
 Init == stage = "comp" /\ sc = [solver |-> "", datafit |-> "", penalty |-> "", storage |-> "dense",
                                 fit_intercept |-> FALSE, cols |-> <<>>, target |-> "regular", shape |-> "tall",
                                 greedy |-> FALSE, strategy |-> "subdiff", warm |-> "none"]
-PickComp == stage = "comp" /\ \E c \in Comps : \E st \in (IF Sparse(c) THEN {"dense", "csc"} ELSE {"dense"}) :
+\* "csc_explicit": CSC storage in which the zeros of the degenerate columns are STORED entries
+PickComp == stage = "comp" /\ \E c \in Comps : \E st \in (IF Sparse(c) THEN {"dense", "csc", "csc_explicit"} ELSE {"dense"}) :
               \E b \in (IF Intercept(c) THEN BOOLEAN ELSE {FALSE}) : \E g \in BOOLEAN : \E ws \in {"subdiff", "fixpoint"} :
               /\ sc' = [sc EXCEPT !.solver = c[1], !.datafit = c[2], !.penalty = c[3], !.storage = st,
                                   !.fit_intercept = b, !.greedy = (g /\ c[1] = "GramCD"),
@@ -54,5 +56,5 @@ PickTarget == stage = "target" /\ \E t \in Targets : \E s \in Shapes : \E w \in 
 Emit == stage = "emit" /\ PrintT(ToJson(sc)) /\ stage' = "done" /\ UNCHANGED sc
 Next == PickComp \/ PickCol \/ ColsDone \/ PickTarget \/ Emit
 Spec == Init /\ [][Next]_vars
-WellFormed == stage = "done" => Len(sc.cols) = 4 /\ (sc.storage = "csc" => Sparse(<<sc.solver, sc.datafit, sc.penalty>>))
+WellFormed == stage = "done" => Len(sc.cols) = 4 /\ (sc.storage # "dense" => Sparse(<<sc.solver, sc.datafit, sc.penalty>>))
 =============================================================================
